@@ -6,7 +6,7 @@ ENGINE = "fitcheck"
 
 # id -> (level, technique, level text, level note, design ref)
 CLAIMED = {
- "C15": ("proof", "exhaustive constant-table x Go-type agreement check over the type-checked source (go/types + exact folding of internal/types pure functions from SSA); cross-generation check of the number-to-member assignment against the five golden generator outputs (parsed with go/parser)",
+ "C15": ("proof", "exhaustive constant-table x Go-type agreement check over the type-checked source (go/types + exact folding of internal/types pure functions from SSA); cross-generation check of the number-to-member assignment against the five golden generator outputs (parsed with go/parser); row-kind cross-check against the generator's golden outputs",
          "Every one of the ~5200 obligations (each knownMsgNums key, each _fields row, each constructor value, each container member, all 256 base-type bytes, all 512 types.Fit codes) is enumerated from the source and discharged; the space is finite and visible in the source, so exhaustive enumeration is a proof of the table-level statement.",
          "Trusted: go/types; the independent FIT base-type table in checker/c15.go; the SSA transfer functions of checker/eval.go; documented reflect panic conditions. Not decided: agreement of field numbers with SDK 21.115 (workbook not in the repository).",
          "DESIGN.md 4 C15"),
@@ -14,7 +14,7 @@ CLAIMED = {
          "Decides structural necessary conditions that tie Encode and Decode together and are claimed nowhere else: every definition the encoder can emit for a hosted field is accepted by the decoder's validator for that very row; the per-kind conversions of the two halves are inverse shapes; strings are clamped/terminated as the decoder scans them; short arrays are padded with the invalid value the decoder's element count and invalid table agree with; no message reaches a container other than through File.add. Breaking any of these breaks the round trip for some in-domain File. Field-for-field equality itself is a statement about run-time values and is NOT decided.",
          "Trusted: exact folding of validateFieldDef (checker/eval.go); time.Time Zone/In/FixedZone semantics; results of C15 (tables) and C17 (coordinate constructors). Not decided: value equality over Files; the component rule (C18) and timestamps over sequences (C12).",
          "DESIGN.md 4 C06"),
- "C20": ("proof", "shape matching of all generated String methods (3 stringer shapes) + decoding of their constant tables, compared with the package's constants from go/types",
+ "C20": ("proof", "shape matching of all generated String methods (3 stringer shapes) + decoding of their constant tables, compared with the package's constants from go/types; who-assigns rule for value names in the stringer",
          "For each of the 176 generated String methods the relation value->substring denoted by the tables is computed for the complete table domain and compared with every constant of the type; the fall-through arm and case-range disjointness cover all remaining values of the type, so the statement is decided for every value, not a sample.",
          "Trusted: go/types constant values; Go semantics of switch/slice/map lookup; strconv.FormatInt. A String method that matches none of the three shapes is reported as undecided (fail closed). Not decided: byte identity with the stringer's output (needs the generator to run).",
          "DESIGN.md 4 C20"),
@@ -46,31 +46,31 @@ CLAIMED = {
          "Decides the framing discipline on every path and for every chunking: reads are exact or capped by the remaining data size, the consumed-byte counter is advanced exactly with the read position, success requires n >= limit then a 2-byte CRC read, chained files get a fresh decoder. Chunking cannot matter because no rule depends on how many bytes a Read returns.",
          "Trusted: io.ReadFull/binary.Read/io.CopyN/io.Reader contracts. Not decided: equality of chained results with stand-alone decoding (paper consequence with C08); n <= limit is implied by cap + counting but not computed.",
          "DESIGN.md 4 C10"),
- "C16": ("other", "control-dependence (post-dominator) and data-flow non-interference analysis of option-derived values on SSA + guard-dominance rules for the two counters + shape rules for handlers",
+ "C16": ("other", "control-dependence (post-dominator) and data-flow non-interference analysis of option-derived values on SSA + guard-dominance rules for the two counters + shape rules for handlers; exactness of guards by control dependence on the error-free sub-graph of the CFG",
          "Decides that option values cannot influence parsing: every instruction control-dependent on an option-derived branch is logging or unknown-item bookkeeping, option values flow nowhere else, the counters are guarded by exactly the conditions the statement names, and the reports are deferred before parsing and sorted. Holds for all 8 option combinations and all streams because it is a property of the code's dependence structure.",
          "Trusted: post-dominator computation; Logger implementations do not reach back into the decoder. Not decided: counts as numbers on concrete streams; the 'every record completed before the failure' clause.",
          "DESIGN.md 4 C16"),
- "C13": ("other", "exhaustive evaluation of the record-header guards from SSA over all 256 byte values (cube partition), slot who-may-write/index rules, freshness and byte-order switch rules; stored definitions immutable outside the definition parser (mutating-use analysis of defmsg members and the lists loaded from them)",
+ "C13": ("other", "exhaustive evaluation of the record-header guards from SSA over all 256 byte values (cube partition), slot who-may-write/index rules, freshness and byte-order switch rules; stored definitions immutable outside the definition parser (mutating-use analysis of defmsg members and the lists loaded from them); value-identity rule for the definition handed to the field parser",
          "Decides header dispatch and local-type extraction for all 256 header bytes exactly, that a definition is stored only under its own local type, that a missing definition is an error, and that definitions share no storage and carry their own byte order. These are the structural reasons slots are independent; decoded values of interleavings are not computed.",
          "Trusted: guard transfer functions (& const, >> const, comparisons); dominator tree. Not decided: values decoded from interleaved streams.",
          "DESIGN.md 4 C13"),
- "C12": ("other", "paired-update and who-may-write rules on the reference-time state (SSA), normal-form recognition of the compressed update, guard dominance, constant and conversion-shape checks; transitive control-dependence rule: the explicit re-base depends only on the invalid, kind and field-number tests",
+ "C12": ("other", "paired-update and who-may-write rules on the reference-time state (SSA), normal-form recognition of the compressed update, guard dominance, constant and conversion-shape checks; transitive control-dependence rule: the explicit re-base depends only on the invalid, kind and field-number tests; row-kind cross-check against the generator's golden outputs (sibling agreement through time)",
          "Decides the state discipline the time rules rest on: only the UTC field 253 and the compressed branch re-base the reference, each re-base updates the 5-bit offset with it, the update has the rollover form, invalid values are skipped, and the epoch/zone conversions have the documented shapes. Sequence arithmetic over long runs is a consequence of the recognised formula and is not computed.",
          "Trusted: time package semantics; recognised normal form of the compressed update (an equivalent rewrite is reported as undecided, not accepted silently). Not decided: computed values over sequences.",
          "DESIGN.md 4 C12"),
- "C18": ("other", "sibling-arm rule over the 17 routers, bit-slice lint over all expandComponents bodies incl. guard exactness, dependency order and non-slice assignments (syntax + types), accumulator recognised on SSA path terms, construction/scope rules (SSA); read-after-write ordering of expansion blocks by struct order of their sources; expansion arms of reference values sharing a dynamic-getter arm must be identical",
+ "C18": ("other", "sibling-arm rule over the 17 routers, bit-slice lint over all expandComponents bodies incl. guard exactness, dependency order and non-slice assignments (syntax + types), accumulator recognised on SSA path terms, construction/scope rules (SSA); read-after-write ordering of expansion blocks by struct order of their sources; expansion arms of reference values sharing a dynamic-getter arm must be identical; store census on accumulator fields",
          "Decides that expansion is invoked wherever a named component-bearing message is stored, that every recognised bit slice is well-formed, guarded by the source's invalid value and contiguous, and the accumulator discipline. Known findings (generator-rooted): package-level never-reset accumulators, two zero-mask accumulators, one narrow shift. The component layout against the SDK and the sums over streams are not decided.",
          "Trusted: Go shift/conversion semantics; C15-4 constructor values. Not decided: layout against the 21.115 profile (workbook absent), computed sums.",
          "DESIGN.md 4 C18"),
- "C17": ("other", "constant folding, comparison of the value-type methods' symbolic path terms (SSA normal form) with the expected path sets, and guard-interval extraction: exact SSA evaluation of the semicircle constructors at one representative of every interval between their comparison constants",
+ "C17": ("other", "constant folding, comparison of the value-type methods' symbolic path terms (SSA normal form) with the expected path sets, and guard-interval extraction: exact SSA evaluation of the semicircle constructors at one representative of every interval between their comparison constants; row-kind cross-check against the generator's golden outputs",
          "Decides the sentinel, bounds, factors, guard structure and conversion shapes; the accepted set of NewLatitude/NewLongitude is exact for all 2^32 inputs because the argument is only compared with constants (finite set of orderings). Known finding: +90 degrees exactly is rejected. The numeric clauses (round trip within one semicircle, printed form within 2e-5, bijection of seconds) need enumeration of 2^32 values and are not decided.",
          "Trusted: evaluator transfer functions; IEEE-754 semantics of the named operations; strconv.FormatFloat. Not decided: numeric accuracy clauses.",
          "DESIGN.md 4 C17"),
- "C05": ("other", "effect/ordering rules on Encode (SSA dominance), exhaustive evaluation of the emitted record-header bytes over all 256 local numbers, definition-layout shape rules, per-class agreement of declared and emitted field sizes over every (kind, base, array) class of the profile table, typestate dataflow for 'definition written before data'; no-silent-skip dominance rule over the output-writing functions of Encode's call tree",
+ "C05": ("other", "effect/ordering rules on Encode (SSA dominance), exhaustive evaluation of the emitted record-header bytes over all 256 local numbers, definition-layout shape rules, per-class agreement of declared and emitted field sizes over every (kind, base, array) class of the profile table, typestate dataflow for 'definition written before data'; no-silent-skip dominance rule over the output-writing functions of Encode's call tree; constant-comparison rule over the omission decision (call-graph slice of getEncodeMesgDef)",
          "Decides the structural well-formedness conditions: promised post-state stored, data size taken after the last record, header bytes in the decoder's classes, definition layout, declared size = emitted size for every table class, each data record preceded by its own written definition. These hold for every File because they are properties of the encoder's code and the constant table. Wire values and conformance under an independent parser are not observed.",
          "Trusted: encoding/binary.Write size semantics; C15 and C13 results. Not decided: value equality on the wire; custom binary.ByteOrder implementations.",
          "DESIGN.md 4 C05"),
- "C07": ("other", "census of every error origin and potential panic site in the functions reachable from Encode (SSA + call graph), each classified by its guarding condition and discharged by constant-table facts about the hosted message types; reflect precondition table; expansion order/guard clauses (idempotence); every-visited-message-is-written dominance rules and profile-row identity in the definition builder; record-layout and no-silent-skip rules of C05 run here as well; origin-based nil-safety analysis over Encode's scope (local cells, captured variables, collections of pointers); Encode-reachable methods of message types (class hierarchy for reflection-fed interface calls) do not write their receiver; accumulator-state rule",
+ "C07": ("other", "census of every error origin and potential panic site in the functions reachable from Encode (SSA + call graph), each classified by its guarding condition and discharged by constant-table facts about the hosted message types; reflect precondition table; expansion order/guard clauses (idempotence); every-visited-message-is-written dominance rules and profile-row identity in the definition builder; record-layout and no-silent-skip rules of C05 run here as well; origin-based nil-safety analysis over Encode's scope (local cells, captured variables, collections of pointers); Encode-reachable methods of message types (class hierarchy for reflection-fed interface calls) do not write their receiver; accumulator-state rule; exactness of guards by control dependence on the error-free sub-graph of the CFG",
          "Decides shape-level encodability: every way Encode can fail or panic is enumerated; each is a write that cannot fail, the caller's writer, impossible for a File whose init succeeded, or excluded by the tables for every hosted message type. The one origin that cannot be discharged (UTF-8 check vs. arbitrary decoded bytes) is a known finding. Content equality after re-encoding and the fixpoint clause are not decided.",
          "Trusted: bytes.Buffer/hash writes never fail; C15 and C03 results; reflect panic conditions. Not decided: equality of re-decoded content, second round trip, nil container elements.",
          "DESIGN.md 4 C07"),
@@ -78,11 +78,11 @@ CLAIMED = {
          "The statement is value-level and is not decided as a whole. Decided are eight structural necessary conditions; each one, when broken, makes some decoded value differ from its wire value (wrong byte order, wrong width or setter, missing sign extension, write to the wrong struct field, unread bytes, skipped developer section, aliasing the scratch buffer, destroyed narrow big-endian fields).",
          "Trusted: evaluator transfer functions; reflect setter semantics; builtin copy. Not decided: equality of every decoded value with its wire value; narrow-coordinate sign padding; string termination; developer-field content.",
          "DESIGN.md 4 C02"),
- "C01": ("other", "exact folding of validateFieldDef over the complete (profile class x base byte x size) product joined with the consumer arms; panic-site census discharged by an interval analysis with guard refinement, linear loop invariants proved inductive by candidate elimination over the paths of the loop body, length-guard and map-initialisation dominance rules, range-loop semantics, table obligations and a short frozen audited list; loop census with ranking arguments; call-graph closure; origin-based nil-safety analysis of every dereference / interface call on the decode path (parameters by call-site fixpoint over the VTA graph, field disciplines init-before-use / set-before-publish, path walk for lazily built globals); explicit panics decided structurally (exhaustive Kind switch, known-implies-valid at every call site, pruned-edge reachability in the cursor walk); ByteOrder read-length rule; counted loops must not be able to wrap their counter; origin-based validity analysis of reflect.Values (zero-Value receivers) over SSA and the VTA call graph",
+ "C01": ("other", "exact folding of validateFieldDef over the complete (profile class x base byte x size) product joined with the consumer arms; panic-site census discharged by an interval analysis with guard refinement, linear loop invariants proved inductive by candidate elimination over the paths of the loop body, length-guard and map-initialisation dominance rules, range-loop semantics, table obligations and a short frozen audited list; loop census with ranking arguments; call-graph closure; origin-based nil-safety analysis of every dereference / interface call on the decode path (parameters by call-site fixpoint over the VTA graph, field disciplines init-before-use / set-before-publish, path walk for lazily built globals); explicit panics decided structurally (exhaustive Kind switch, known-implies-valid at every call site, pruned-edge reachability in the cursor walk); ByteOrder read-length rule; counted loops must not be able to wrap their counter; origin-based validity analysis of reflect.Values (zero-Value receivers) over SSA and the VTA call graph; must-pass-through (edge/block cut) rule for File.init",
          "The exhaustive single-field-definition clause is decided exactly (1.9 M validator points, every accepted point held against its consuming arm). For the rest, every potential panic site and every loop in the functions reachable from the five entry points is enumerated and must carry a discharge; an undischarged site or unclassified loop is reported with its call path. Hanging readers that violate the io.Reader contract, stdlib-internal panics and memory exhaustion are outside.",
          "Trusted: evaluator/interval transfer functions; documented reflect and encoding/binary panic conditions; 7 audited sites (buffer cursor invariant, copy count, invariant panics, dead default arms), each with its reason in checker/c01.go; nil-dereference freedom is covered only by the targeted guard rules (definition slot, profile row, logger, constructor table), not by a general nilness analysis.",
          "DESIGN.md 4 C01"),
- "C19": ("other", "determinism lint (map-order rule with singleton facts, ambient-input and timestamp-flag rules) emitter-agreement shape rules, selection-column read-only rule, exactly-one-entry rule for pick-any map loops (interprocedural length facts plus a re-checked fill chain), version-string path term and nil-checked map lookups over the generator packages (syntax + types + SSA dominance); unconditional-import rule on the emitter syntax",
+ "C19": ("other", "determinism lint (map-order rule with singleton facts, ambient-input and timestamp-flag rules) emitter-agreement shape rules, selection-column read-only rule, exactly-one-entry rule for pick-any map loops (interprocedural length facts plus a re-checked fill chain), version-string path term and nil-checked map lookups over the generator packages (syntax + types + SSA dominance); unconditional-import rule on the emitter syntax; exactness of guards by control dependence on the error-free sub-graph of the CFG",
          "Decides two structural necessary conditions of the generator: no iteration-order or ambient dependence in what is emitted (one frozen, reasoned exception), and the three per-field emitters walk the same slice one item per element with the table's struct index equal to the position, the version printed being the pair passed in, disabled rows skipped before the slice is built. Exit status, compilation and byte identity of real runs over workbook subsets need the command to run and are not decided.",
          "Trusted: map iteration is the only nondeterminism source in sequential code without ambient inputs. Not decided: everything that requires running fitgen (see DESIGN.md 5).",
          "DESIGN.md 4 C19"),
